@@ -311,8 +311,11 @@ func runC04(c *run.Ctx, s *kit.Summary) {
 				if nres > nonStop || nres < nonStop-1 {
 					viol("hits_not_one_per_pacer_release", "with a Stop call: the number of hits is neither the number of non-stop pacer answers nor one less", fmt.Sprint(nonStop-1, "..", nonStop), fmt.Sprint(nres))
 				}
-			} else if nres != nonStop {
-				viol("hits_not_one_per_pacer_release", "the number of hits differs from the number of non-stop pacer answers", fmt.Sprint(nonStop), fmt.Sprint(nres))
+			} else if nres > nonStop || (cs.Du == 0 && nres != nonStop) || nres < nonStop-1 {
+				// every hit needs its own consultation; with a duration the hit of the last consultation may be
+				// withheld (the property allows AT MOST one release after the deadline — none is fine too);
+				// the hits argument 0,1,2,… (checked above) already rules out two consultations for one hit
+				viol("hits_not_one_per_pacer_release", "the number of hits differs from the number of non-stop pacer answers (with a duration: may be one less)", fmt.Sprint(nonStop), fmt.Sprint(nres))
 			}
 			// (e) no early start: the k-th request to reach the transport cannot precede the instant the
 			//     k-th wait was over (lower bound only)
